@@ -259,15 +259,20 @@ func replayOtherArch(raw json.RawMessage) error {
 	return nil
 }
 
-// TestArch386 (thorough tier, shard 0 only): runs this whole package, quick-tier counts, as a
-// GOARCH=386 binary so that field_10x26.go and the 32-bit big.Word paths are exercised.
+// TestArch386 (shard 0 only): runs this whole package as a GOARCH=386 binary so that field_10x26.go,
+// z_consts_10x26.go and the 32-bit big.Word paths are exercised: quick tier 2 sub-shards at 0.04 of the
+// quick counts, thorough tier 4 sub-shards at 0.5 of the quick counts.
 func TestArch386(t *testing.T) {
 	if os.Getenv("VERIF_REPLAY") != "" || os.Getenv("VERIF_C08_SUB") != "" || runtime.GOARCH == "386" {
 		t.Skip()
 	}
 	shard, _ := pbt.Shard()
-	if shard != 0 || (pbt.Tier() != "thorough" && os.Getenv("VERIF_C08_FORCE386") == "") {
+	if shard != 0 {
 		t.Skip()
+	}
+	sub, scale := 2, "0.04"
+	if pbt.Tier() == "thorough" || os.Getenv("VERIF_C08_FORCE386") != "" {
+		sub, scale = 4, "0.5"
 	}
 	bin, err := build386()
 	if err != nil {
@@ -275,7 +280,6 @@ func TestArch386(t *testing.T) {
 		pbt.Extra("arch386", "not run (build failed)")
 		t.Skip(err)
 	}
-	const sub = 4
 	tmp, _ := os.MkdirTemp("", "c08-386-")
 	defer os.RemoveAll(tmp)
 	type res struct {
@@ -293,7 +297,7 @@ func TestArch386(t *testing.T) {
 			cmd := exec.Command(bin, "-test.timeout", "3000s", "-rapid.shrinktime", "20s")
 			cmd.Dir = filepath.Join(moduleRoot(), "props", "c08")
 			cmd.Env = append(os.Environ(), "VERIF_C08_SUB=1", "VERIF_TIER=quick", fmt.Sprintf("VERIF_SHARD=%d", i), fmt.Sprintf("VERIF_SHARDS=%d", sub),
-				"VERIF_STATS="+filepath.Join(sd, "stats.json"), "VERIF_FAILDIR="+filepath.Join(sd, "fail"), "VERIF_SCALE=0.5")
+				"VERIF_STATS="+filepath.Join(sd, "stats.json"), "VERIF_FAILDIR="+filepath.Join(sd, "fail"), "VERIF_SCALE="+scale)
 			results[i].out, results[i].err = cmd.CombinedOutput()
 		}(i)
 	}
@@ -343,6 +347,6 @@ func TestArch386(t *testing.T) {
 	}
 	if ran {
 		d.Eval("ran", true, "386", nil)
-		pbt.Extra("arch386", "ran: field_10x26.go, quick-tier counts x0.5")
+		pbt.Extra("arch386", "ran: field_10x26.go, quick-tier counts x"+scale)
 	}
 }
